@@ -938,6 +938,7 @@ def ev_construct(ident: int, c: Case) -> dict:
     if x is not None:
         _alive.append(x)
         e['ids'], e['isfac'] = _observe_instance(x, cls, set(names))
+        e['setdict'] = _set_only_dict(x)
         if con['path'] != 'ctor':
             try:
                 e['verbatim'] = 'T' if all(getattr(x, n) is v for n, v in zip(names, vals)) else 'F'
@@ -972,7 +973,18 @@ def ev_created(ident: int, c: Case) -> dict:
         except AttributeError:
             supplied = set()
         e['ids'], e['isfac'] = _observe_instance(x, cls, supplied)
+        e['setdict'] = _set_only_dict(x)
     return e
+
+
+def _set_only_dict(x) -> list:
+    """the documented view of the record of explicitly set fields: instance.dict(set_only=True)"""
+    try:
+        return [[vocab.tok(k), abstract(v)] for k, v in x.dict(set_only=True).items()]
+    except OutOfVocab:
+        raise
+    except Exception as ex:  # noqa
+        return [[vocab.tok('?raised ' + type(ex).__name__), {'k': 'none'}]]
 
 
 def _noop_handler(ty, args, *, handlers):
